@@ -142,7 +142,7 @@ mutual
 def fdefD (NF : List String) : FieldDecl → List String
   | .tupleOf item _ => fdefD NF item
   | .seqPos .list items _ _ => "fast:untyped-raw" :: fdefL NF items     -- surplus elements are copied raw
-  | .seqPos .deque items _ _ => "fast:positional-index:deque" :: fdefL NF items
+  | .seqPos .deque items _ _ => "positional-deque:unproved" :: fdefL NF items
   | .seqAny _ _ => ["fast:untyped-raw"]
   | .setAny _ _ => ["fast:untyped-raw"]
   | .mapAny _ => ["fast:untyped-raw"]
@@ -355,6 +355,154 @@ def fwfFields (O : Oracles) (defaults attrs : List (String × PyVal)) : List (St
       | some v => v.isNone || fwf O f v
       | none => (lookup n defaults).all (·.isNone))
     && fwfFields O defaults attrs rest
+termination_by structural fs => fs
+end
+
+
+/-! ### key-renaming mappers (Props/C10 §7) -/
+
+def relabelKey (m : TMapper) : PyVal → PyVal
+  | .str n => .str (mapKey m n)
+  | k => k
+
+def relabelPairs (m : TMapper) (r : List (PyVal × PyVal)) : List (PyVal × PyVal) :=
+  r.map fun kv => (relabelKey m kv.1, kv.2)
+
+/-- the document of a class-level object with its keys renamed by the class's mapper -/
+def relabelDoc (m : TMapper) (d : PyVal) : R PyVal :=
+  match d with
+  | .dict r => .ok (.dict (relabelPairs m r))
+  | v => .ok v
+
+
+mutual
+/-- no class inside `f` has a mapper -/
+def mfreeD (Mp : MapEnv) : FieldDecl → Bool
+  | .struct c fields _ => (c.inline || (Mp c.name).isNone) && mfreeFields Mp fields
+  | .seqOf _ item _ => mfreeD Mp item
+  | .setOf _ item _ => mfreeD Mp item
+  | .tupleOf item _ => mfreeD Mp item
+  | .tuplePos items _ => mfreeL Mp items
+  | .seqPos _ items _ _ => mfreeL Mp items
+  | .mapOf kf vf _ => mfreeD Mp kf && mfreeD Mp vf
+  | .anyOf fs => mfreeL Mp fs
+  | .oneOf fs => mfreeL Mp fs
+  | .allOf fs => mfreeL Mp fs
+  | .notF fs => mfreeL Mp fs
+  | .number _ => true
+  | .integer _ => true
+  | .float _ => true
+  | .string _ _ _ => true
+  | .boolean => true
+  | .noneF => true
+  | .enumLit _ => true
+  | .enumCls _ _ => true
+  | .seqAny _ _ => true
+  | .setAny _ _ => true
+  | .mapAny _ => true
+  | .anything => true
+termination_by structural f => f
+def mfreeL (Mp : MapEnv) : List FieldDecl → Bool
+  | [] => true
+  | f :: fs => mfreeD Mp f && mfreeL Mp fs
+termination_by structural fs => fs
+def mfreeFields (Mp : MapEnv) : List (String × FieldDecl) → Bool
+  | [] => true
+  | (_, f) :: rest => mfreeD Mp f && mfreeFields Mp rest
+termination_by structural fs => fs
+end
+
+
+/-! ### the document of a class tree with every class's keys renamed by its own mapper -/
+
+mutual
+/-- `relV Mp f j`: the mapper-free document `j` of a value of field `f` with the keys of every
+    class-level object renamed by that class's own mapper (classes directly in a field, in an
+    Array / Deque / Set / Tuple[X], in an Optional) -/
+def relV (Mp : MapEnv) : FieldDecl → PyVal → PyVal
+  | .struct c fields _, j =>
+    (match j with
+      | .dict r => if c.inline then .dict r else .dict (relFields Mp (Mp c.name) fields r)
+      | other => other)
+  | .seqOf _ item _, j => (match j with | .list js => .list (js.map (relV Mp item)) | other => other)
+  | .setOf _ item _, j => (match j with | .list js => .list (js.map (relV Mp item)) | other => other)
+  | .tupleOf item _, j => (match j with | .list js => .list (js.map (relV Mp item)) | other => other)
+  | .anyOf fs, j => relLast Mp fs j
+  | .number _, j => j
+  | .integer _, j => j
+  | .float _, j => j
+  | .string _ _ _, j => j
+  | .boolean, j => j
+  | .noneF, j => j
+  | .enumLit _, j => j
+  | .enumCls _ _, j => j
+  | .seqAny _ _, j => j
+  | .seqPos _ _ _ _, j => j
+  | .setAny _ _, j => j
+  | .tuplePos _ _, j => j
+  | .mapAny _, j => j
+  | .mapOf _ _ _, j => j
+  | .oneOf _, j => j
+  | .allOf _, j => j
+  | .notF _, j => j
+  | .anything, j => j
+termination_by structural f _ => f
+/-- through the option `AnyOf.serialize` uses: the last one that is not `NoneField` -/
+def relLast (Mp : MapEnv) : List FieldDecl → PyVal → PyVal
+  | [], j => j
+  | f :: rest, j => if rest.all isNoneF && !isNoneF f then relV Mp f j else relLast Mp rest j
+termination_by structural fs _ => fs
+/-- the entries of a class-level object (field order, absent fields skipped) -/
+def relFields (Mp : MapEnv) (m : TMapper) : List (String × FieldDecl) → List (PyVal × PyVal) → List (PyVal × PyVal)
+  | [], r => r
+  | (n, f) :: rest, r =>
+    (match r with
+      | [] => []
+      | (k, j) :: r' =>
+        if (match k with | .str s => s == n | _ => false)
+        then (PyVal.str (mapKey m n), relV Mp f j) :: relFields Mp m rest r'
+        else relFields Mp m rest ((k, j) :: r'))
+termination_by structural fs _ => fs
+end
+
+mutual
+/-- mappers may sit on classes in fields, Array / Deque / Set / Tuple[X] items and Optionals; inside
+    Map values and positional items the classes are mapper-free; every mapper is simple and injective
+    on its class's fields -/
+def fmsafeD (Mp : MapEnv) : FieldDecl → Bool
+  | .struct c fields _ =>
+    !c.inline && !(Mp c.name).isComplex && strNodup (fields.map fun p => mapKey (Mp c.name) p.1)
+      && fmsafeFields Mp fields
+  | .seqOf _ item _ => fmsafeD Mp item
+  | .setOf _ item _ => fmsafeD Mp item
+  | .tupleOf item _ => fmsafeD Mp item
+  | .anyOf fs => fmsafeL Mp fs
+  | .tuplePos items _ => mfreeL Mp items
+  | .seqPos _ items _ _ => mfreeL Mp items
+  | .mapOf kf vf _ => mfreeD Mp kf && mfreeD Mp vf
+  | .number _ => true
+  | .integer _ => true
+  | .float _ => true
+  | .string _ _ _ => true
+  | .boolean => true
+  | .noneF => true
+  | .enumLit _ => true
+  | .enumCls _ _ => true
+  | .seqAny _ _ => true
+  | .setAny _ _ => true
+  | .mapAny _ => true
+  | .oneOf _ => false
+  | .allOf _ => false
+  | .notF _ => false
+  | .anything => true
+termination_by structural f => f
+def fmsafeL (Mp : MapEnv) : List FieldDecl → Bool
+  | [] => true
+  | f :: fs => fmsafeD Mp f && fmsafeL Mp fs
+termination_by structural fs => fs
+def fmsafeFields (Mp : MapEnv) : List (String × FieldDecl) → Bool
+  | [] => true
+  | (_, f) :: rest => fmsafeD Mp f && fmsafeFields Mp rest
 termination_by structural fs => fs
 end
 
